@@ -188,7 +188,7 @@ QM(('C16',), 'decodeptr.L5', 'harness/decode_ptr.c', defs=['-DL=5'], unwind=8, l
 
 # ------------------------------------------------------------------ C17 generate patches
 GENFN = ['create_patches', 'sort_object', 'sort_list', 'compare_strings', 'compare_double', 'encode_string_as_pointer', 'pointer_encoded_length']
-for K in (2, 3):
+for K in (2,):        # K = 3 gives no verdict within 60 min / 25 GB (MiniSat and CaDiCaL)
     QM(('C17', 'C19'), 'genunit.K%d' % K, 'harness/genpatch_unit.c', defs=['-DK=%d' % K], unwind=K + 2, link=['cJSON.c'], stub=['compose_patch', 'create_patches'], stub_lib='cJSON_Utils.c',
        unwindset=ML(2 * K + 4, 120) + ['create_patches__real.3:%d' % (2 * K + 2), 'sort_list:%d' % (1 if K == 2 else 2), 'strcmp.0:12', 'strlen.0:12', 'put.0:12', 'count_rec.0:%d' % (2 * K + 4), 'vf_memcpy.0:12', 'vf_sprintf.0:8', 'vf_sprintf.1:12', 'vf_sprintf.2:8', 'vf_sprintf.3:8',
                                        'vf_put_ulong.0:3', 'vf_put_ulong.1:3', 'encode_string_as_pointer.0:3', 'pointer_encoded_length.0:3', 'check_wf.0:%d' % (K + 2), 'check_wf.1:%d' % (K + 2), 'check_wf.2:%d' % (K + 2), 'build.0:%d' % (K + 2)],
